@@ -197,6 +197,13 @@ def dnf(e, truth=True):
         return dnf(ast.BoolOp(op=ast.And(), values=parts), truth)
     if isinstance(e, ast.Constant):
         return [[]] if bool(e.value) == truth else []
+    if isinstance(e, ast.Compare) and len(e.ops) == 1 and isinstance(e.left, ast.Constant) and isinstance(e.comparators[0], ast.Constant) \
+            and isinstance(e.ops[0], (ast.Is, ast.IsNot, ast.Eq, ast.NotEq)):
+        # two literals: `None is None`, `'text' is not None` are decided here (a flag substituted by its literal value)
+        a_, b_ = e.left.value, e.comparators[0].value
+        same = (a_ is b_) if (a_ is None or b_ is None or isinstance(a_, bool) or isinstance(b_, bool)) else (type(a_) is type(b_) and a_ == b_)
+        val = same if isinstance(e.ops[0], (ast.Is, ast.Eq)) else not same
+        return [[]] if val == truth else []
     if isinstance(e, (ast.Dict, ast.List, ast.Tuple, ast.Set)):
         n_ = len(e.keys) if isinstance(e, ast.Dict) else len(e.elts)
         return [[]] if bool(n_) == truth else []
